@@ -12,6 +12,7 @@ from adcgen.simplify import simplify
 from runtime.tensor_model import Model, orbital_space, evaluate, all_assignments
 
 BUDGET_S = {"quick": 150, "thorough": 3000}
+CASE_TIMEOUT_S = {"quick": 400, "thorough": 1500}
 _CACHE = {}
 
 
